@@ -41,6 +41,7 @@ pub assume_specification<T, E, F: FnOnce(&E)>[Result::<T, E>::inspect_err](r: st
 
 #[verifier::external_body]
 pub struct OsStr { x: u8 }
+impl OsStr { pub uninterp spec fn key(&self) -> PathKey; }
 
 impl File {
     /// fsync(2) / fdatasync(2) through std
